@@ -67,6 +67,11 @@ CHECKS = {
             "Every interleaving of evaluations over the call sites of a program (up to the length bound) is executed for every placement of the sites (same line, lambdas, nested functions, comprehension, helper, module-level shared, identical text in two files) and the per-site results are compared with a fold computed from the script alone; a changed argument must fail the test.",
             "values {0,1,2}; L=3 quick / 4 thorough; cross-file sharing and parametrized tests through a real-plugin slice.",
             "DESIGN.md 5/C14"),
+    "C16": ("exploration",
+            "exhaustive enumeration of small sets/frozensets over mixed and partially ordered elements x all insertion orders x construction methods, each PYTHONHASHSEED x formatter configuration a cold interpreter process; cross-process text / AST equality",
+            "Every value of the bounded family is created by real cold pytest processes under several hash seeds and formatter configurations; texts must be identical across seeds, orders and methods, ASTs identical across formatters.",
+            "8-12 element alphabet, sets up to size 3/4; seeds 0..5 (quick) / 0..31 (thorough); black absence simulated by a project-local black.py raising ImportError.",
+            "DESIGN.md 5/C16"),
 }
 
 NOT_APPLICABLE = {
